@@ -280,7 +280,9 @@ func (i *Index) RmDesc(d Descriptor) {
 		if d.Digest != "" && i.Manifests[mi].Digest == d.Digest {
 			if tag != "" {
 				// deleting a tag leaves one untagged manifest entry
-				if found && (len(i.Manifests[mi].Annotations) == 0 || i.Manifests[mi].Annotations[AnnotRefName] == tag) {
+				// an entry with neither a tag nor a referrer annotation is untagged, whatever else it is annotated with
+				if found && ((i.Manifests[mi].Annotations[AnnotRefName] == "" && i.Manifests[mi].Annotations[AnnotReferrerSubject] == "") ||
+					i.Manifests[mi].Annotations[AnnotRefName] == tag) {
 					i.Manifests[mi] = i.Manifests[len(i.Manifests)-1]
 					i.Manifests = i.Manifests[:len(i.Manifests)-1]
 				} else if i.Manifests[mi].Annotations != nil && i.Manifests[mi].Annotations[AnnotRefName] == tag {
